@@ -10,7 +10,7 @@ package jet
 
 // Everything the interpreter may change while executing template code. The parsed templates (all
 // node types, Template, Set) are deliberately absent: executing never modifies them (C10).
-//@ modset Interp := ghost CM, ghost NL, type Runtime.scope, type Runtime.context, type Runtime.content, type escapeeWriter.Writer, mapsof VarMap, ghost T, type sliceRanger.i, type sliceRanger.v, type mapRanger.iter, type mapRanger.hasMore, type chanRanger.v, type intsRanger.i, type intsRanger.val, mapsof map[reflect.Type]map[string][]int, global cachedStructsFieldIndex
+//@ modset Interp := ghost CM, ghost NL, ghost Held, type Runtime.scope, type Runtime.context, type Runtime.content, type escapeeWriter.Writer, mapsof VarMap, ghost T, type sliceRanger.i, type sliceRanger.v, type mapRanger.iter, type mapRanger.hasMore, type chanRanger.v, type intsRanger.i, type intsRanger.val, mapsof map[reflect.Type]map[string][]int, global cachedStructsFieldIndex
 
 //@ pred RtOK(st *Runtime) := st != nil && st.scope != nil && st.escapeeWriter != nil && st.escapeeWriter.set != nil && st.escapeeWriter.set.gmx != nil && SetOK(st.escapeeWriter.set)
 // S(st): the interpreter state that enclosing constructs must leave as they found it.
@@ -154,9 +154,11 @@ package jet
 //@   ensures [letglobal-single-scope] old(state.scope.parent) == nil || old(state.scope.parent.variables) == nil ==> has(state.scope.variables, name)
 
 //@ func (*Runtime).resolve
-//@   props C07 C18 C17
+//@   props C07 C18 C17 C11
 //@   requires RtOK(state)
+//@   modifies ghost Held
 //@   nopanic
+//@   ensures [lock-released] Held == old(Held)
 //@   loop 0 invariant (sc == state.scope || !has(state.scope.variables, name)) && (state.scope.parent == nil ==> sc == state.scope || sc == nil)
 //@   ensures [dot-is-context] name == "." ==> result0 == state.context && result1 == nil
 //@   ensures [innermost-scope-first] name != "." && has(state.scope.variables, name) ==> result1 == nil && result0 == EfaceOf(state.scope.variables[name])
@@ -168,28 +170,18 @@ package jet
 //@   trusted EfaceOf is defined as the result of indirectEface (a deterministic function of v built from reflect calls only)
 //@   nopanic
 //@   ensures result == EfaceOf(v)
-//@ func (*sync.RWMutex).RLock
-//@   trusted sync library
-//@   nopanic
-//@ func (*sync.RWMutex).RUnlock
-//@   trusted sync library
-//@   nopanic
-//@ func (*sync.RWMutex).Lock
-//@   trusted sync library
-//@   nopanic
-//@ func (*sync.RWMutex).Unlock
-//@   trusted sync library
-//@   nopanic
 
 //@ func (*Runtime).Resolve
 //@   props C18
 //@   requires RtOK(state)
+//@   modifies ghost Held
 //@   nopanic
 //@   callsite (*Runtime).resolve count 1
 
 //@ func (*Runtime).MustResolve
 //@   props C18
 //@   requires RtOK(state)
+//@   modifies ghost Held
 //@   callsite (*Runtime).resolve count 1
 
 // ---- helpers that do not touch interpreter state (their bodies are checked to store nothing) ----
@@ -249,9 +241,10 @@ package jet
 //@   modifies map cache
 //@   loop 0 invariant true
 //@ func resolveIndex
-//@   props C10
+//@   props C10 C11
 //@   nocrash
-//@   modifies mapsof map[reflect.Type]map[string][]int, global cachedStructsFieldIndex
+//@   modifies mapsof map[reflect.Type]map[string][]int, global cachedStructsFieldIndex, ghost Held
+//@   ensures [lock-released] Held == old(Held)
 //@   loop 0 invariant true
 //@ func getRanger
 //@   props C10 C05
